@@ -2,7 +2,7 @@ CONSTANTS
   FixAsyncCb = TRUE
   FixCbRpc = TRUE
   FixCbEl = TRUE
-  FixKickoff = TRUE
+  FixKickoff = FALSE
   FixDispatch = TRUE
   FixPolicy = TRUE
   FixResend = TRUE
